@@ -4,6 +4,7 @@ import scipy.linalg as la
 from hypothesis import strategies as st
 
 from vlib import util
+from vlib import defaults
 from vlib.core import Part
 
 PROPERTY = "C08"
@@ -388,4 +389,7 @@ PARTS = [
     Part("cdf", oracle, strategy=lambda: histories("cdf"), quick=(5, 100), thorough=(16, 600)),
     Part("se2", oracle, strategy=lambda: histories("se2"), quick=(6, 100), thorough=(16, 600)),
     Part("pre_eig", oracle_pre_eig, strategy=pre_eig_cases, quick=(2, 40), thorough=(8, 150)),
+    # documented defaults: leaving a keyword out = passing its documented value (vlib/defaults.py)
+    Part("defaults", defaults.make_oracle("C08"), enum=defaults.make_enum(), quick=(1, None), thorough=(1, None),
+         exhaustive=True),
 ]
